@@ -1308,6 +1308,14 @@ func (h *hist) scriptGetCache() {
 	h.opUStart("u2@example.com", "GET", "/private", 0, []string{}, false) // must go to b2, not be answered from u1's cache entry
 	h.opARespond(ag0, "b2", h.lastK(), 800, 200, false, []string{})
 	h.opUStart("u1@example.com", "GET", "/private", 0, []string{}, false) // u1's own cached response
+	// the administrator takes u1's backend away: u1 has no backend any more, also not for URLs it was served before
+	h.opDelete("admin", "b1")
+	h.opUStart("u1@example.com", "GET", "/private", 0, []string{}, false)
+	h.opUStart("u1@example.com", "GET", "/page?x=1", 0, []string{}, false)
+	// ... and gives the ID to another user
+	h.opAdd("b1", "admin", ag0, "u2@example.com", []string{"/private"}, []string{})
+	h.opSeen("b1", "live")
+	h.opUStart("u1@example.com", "GET", "/private", 0, []string{}, false)
 }
 
 // script 6: an agent's poll refreshes the liveness of its backend (trackers close to the end of the window)
